@@ -45,6 +45,22 @@ CHECKS = {
    technique="property-based metamorphic testing (rapid): one decoded host rendered in four spellings (case flips, whole-code-point percent-encodings) must give one result; exactness oracle for pure-ASCII hosts",
    text="Decoded hosts built from ASCII, mapped, ignored, joiner, RTL, fullwidth and ACE labels are written in four spellings and parsed in the six special schemes: all spellings must agree; results must be lowercase ASCII without forbidden domain code points; pure-ASCII non-ACE hosts must be exactly their lowercased form (or C07's result, or rejected for a forbidden code point); file + localhost gives the empty host.",
    ref="DESIGN.md §6 C09", note="trusted base: the spelling construction in harness/props/c09.go; UTS #46 mapping taken as given; reference model only for the ends-in-a-number sub-case"),
+ "C10": dict(
+   technique="exhaustive enumeration of all code points x named sets against tables from the standard, plus property-based testing (rapid) of copy-on-derive programs and of the encode/decode string laws",
+   text="Membership of all 0x110000 code points and all 256 bytes in the six named sets is compared exhaustively with tables written from the standard, and every ASCII code point is pushed through every URL component (special and non-special) against the reference model. Random Set/Clear derivation programs must leave every earlier set and all named sets unchanged and differ from the parent exactly on the given bytes. Random strings x named and derived sets check the encode/decode laws of the statement.",
+   ref="DESIGN.md §6 C10", note="trusted base: the set predicates in harness/spec/encode.go (typed from the standard), the model encoder in harness/props/c10.go, rapid"),
+ "C11": dict(
+   technique="stateful property-based testing (rapid) against a list model with the standard's semantics, differential testing against a reference application/x-www-form-urlencoded parser, and a serialize-parse round trip",
+   text="Operation sequences on SearchParams are mirrored on an ordered-list model and compared after every step (getters for all names in play; the whole order through Iterate on a twin). Generated query strings are parsed and compared with the reference form-urlencoded parser. Lists of arbitrary pairs are appended, the URL reparsed and the list compared.",
+   ref="DESIGN.md §6 C11", note="trusted base: list model and reference codec in harness (written from the standard), rapid; known finding KF-C11-serializer is attributed only when the tree-style serializer explains the entire result"),
+ "C12": dict(
+   technique="stateful property-based testing (rapid): query/list consistency invariants I1-I4 after every step of generated interleavings of list mutations, SetSearch and other setters over several live handles",
+   text="Generated interleavings of SearchParams mutations through several handles (obtained before and after SetSearch), SetSearch calls and other setters; after every step the URL's Query/Search/Href query part equal the list serialization (after list mutations), every handle equals the form-urlencoded parse of the new query (after SetSearch), and other setters leave both alone.",
+   ref="DESIGN.md §6 C12", note="trusted base: invariants in harness/props/c12.go, reference form-urlencoded parser, rapid"),
+ "C13": dict(
+   technique="stateful property-based testing (rapid) over two aliased values: snapshot-unchanged invariant for the untouched side and isolated-twin equivalence for the operated side",
+   text="Resolve and Clone scenarios with lazily created state present or absent, then operations on either side; the other side's full snapshot must not change and the operated side must equal an isolated twin with the same history.",
+   ref="DESIGN.md §6 C13", note="trusted base: snapshot and twin construction in harness/props/c13.go, rapid"),
 }
 
 NOT_YET = {}
